@@ -8,6 +8,8 @@ from replay.common import main
 
 
 def scenarios(seed, tier, failed):
+    for cap in (2, 3):
+        yield {'kind': 'evict', 'capacity': cap, 'timeout': 20}
     for names in (['A'], ['A', 'B'], ['A', 'B', 'A'], ['B', 'A', 'C', 'A']):
         for how in ('rebuilt', 'same'):
             for idx in range(len(names)):
@@ -16,7 +18,46 @@ def scenarios(seed, tier, failed):
                 yield {'kind': 'cancel', 'names': names, 'by': 'name', 'name': nm, 'how': how, 'timeout': 20}
 
 
+def run_evict(sc):
+    """capacity C: one live periodic source, C-1 finished one-shots, then one more timed post.  Whatever that post
+    does, the live source must still be cancellable."""
+    from miros.activeobject import ActiveObject, ActiveObjectOutOfPostedEventResources
+    from miros.event import Event
+
+    class Small(ActiveObject):
+        QUEUE_SIZE = sc['capacity']
+    ao = Small(name='c11e')
+    flags = []
+    try:
+        live = ao.post_fifo(Event(signal='C11_LIVE'), period=0.03, times=0, deferred=True)
+        for i in range(sc['capacity'] - 1):
+            ao.post_fifo(Event(signal='C11_ONCE%d' % i), period=0.01, times=1, deferred=False)
+        time.sleep(0.1)
+        flags = [pe.task_run_event for pe in ao.posted_events_queue]
+        try:
+            ao.post_fifo(Event(signal='C11_EXTRA'), period=1000.0, times=1, deferred=True)
+        except ActiveObjectOutOfPostedEventResources:
+            pass
+        flags += [pe.task_run_event for pe in ao.posted_events_queue if pe.task_run_event not in flags]
+        ao.cancel_event(live)
+        time.sleep(0.1)
+        n1 = [e.signal_name for e in ao.queue.deque].count('C11_LIVE')
+        time.sleep(0.15)
+        n2 = [e.signal_name for e in ao.queue.deque].count('C11_LIVE')
+        if n2 != n1:
+            return False, 'cancel_event(id) returned but the source posted %d more events: it had been pushed out of ' \
+                          'the tracked list by a later timed post' % (n2 - n1), 'timed/'
+        return True, ''
+    finally:
+        for f in flags:
+            f.clear()
+        for pe in list(ao.posted_events_queue):
+            pe.task_run_event.clear()
+
+
 def run(sc):
+    if sc['kind'] == 'evict':
+        return run_evict(sc)
     from miros.activeobject import ActiveObject
     from miros.event import Event
     ao = ActiveObject(name='c11')
@@ -28,7 +69,7 @@ def run(sc):
         tracked = {pe.uuid: pe for pe in ao.posted_events_queue}
         if sc['by'] == 'id':
             target = ids[sc['index']]
-            arg = uuid.UUID(str(target)) if sc['how'] == 'rebuilt' else target
+            arg = ''.join(list(target)) if sc['how'] == 'rebuilt' else target     # equal text, a different object
             ao.cancel_event(arg)
             hit = {target}
             key = 'cancel_event:'
